@@ -264,7 +264,9 @@ Definition eqs (g : gate) : list (K * K) :=
 (* the "exactly zero" flag of the first parameter is truthful *)
 Definition zero_flag_ok (g : gate) : Prop :=
   match g with
-  | Dgate r _ | Xgate r | Zgate r | Pgate r _ _ _ | CXgate r _ _ | CZgate r _ _ => rz r = true -> rv r = 0
+  | Dgate r _ | Xgate r | Zgate r => rz r = true -> rv r = 0
+  | Pgate r wr wth _ | CXgate r wr wth | CZgate r wr wth =>
+      (rz r = true -> rv r = 0) /\ (hz wr = true -> ch wr = 1 /\ sh wr = 0) /\ (az wth = true -> co wth = 1 /\ si wth = 0)
   | Sgate r _ | S2gate r _ => hz r = true -> ch r = 1 /\ sh r = 0
   | Rgate a | BSgate a _ | MZgate a _ | sMZgate a _ => az a = true -> co a = 1 /\ si a = 0
   | Fouriergate => True
@@ -274,12 +276,34 @@ Definition zero_flag_ok (g : gate) : Prop :=
 Definition gaussian (g : gate) : Prop := match g with Opaque _ => False | _ => True end.
 Definition wf (g : gate) : Prop := gaussian g /\ all_eq (eqs g) /\ zero_flag_ok g.
 
+Definition arity (g : gate) : nat :=
+  match g with
+  | BSgate _ _ | MZgate _ _ | sMZgate _ _ | S2gate _ _ | CXgate _ _ _ | CZgate _ _ _ => 2
+  | _ => 1
+  end.
+
 Definition wires_ok (c : cmd) : Prop :=
   match cw c with
   | [a] => a = O \/ a = S O
   | [a; b] => (a = O /\ b = S O) \/ (a = S O /\ b = O)
   | _ => False
   end.
+
+Definition cmd_ok (c : cmd) : Prop := wf (cg c) /\ wires_ok c /\ length (cw c) = arity (cg c).
+
+(* the decomposition tables of the three simulator compilers, restricted to the modelled gate set
+   (compilers/gaussian.py, bosonic.py, fock.py); compared with the classes' attributes on every run.
+   Opaque ids: 0 Kgate, 1 Vgate, 2 CKgate, 3 Ggate *)
+Definition tb_gaussian : table :=
+  mkTable (fun k => match k with kD | kS | kR | kBS => true | _ => false end)
+          (fun k => match k with kP | kS2 | kCX | kCZ | kMZ | ksMZ | kX | kZ | kF => true | _ => false end).
+Definition tb_bosonic : table :=
+  mkTable (fun k => match k with kD | kS | kR | kBS => true | _ => false end)
+          (fun k => match k with kP | kS2 | kCX | kCZ | kMZ | kX | kZ | kF => true | _ => false end).
+Definition tb_fock : table :=
+  mkTable (fun k => match k with kD | kS | kR | kBS | kMZ | kS2 => true
+                            | kO O | kO (S O) | kO (S (S O)) | kO (S (S (S O))) => true | _ => false end)
+          (fun k => match k with kP | kCX | kCZ | ksMZ | kX | kZ | kF => true | _ => false end).
 
 (* gates whose native backend call obeys the Gate conventions (see the conv lemmas in Proofs) *)
 Definition conv_prim (k : kind) : bool :=
